@@ -323,8 +323,59 @@ def make_cases(ctx, first):
     return cases
 
 
+def late_blob_check(ctx):
+    """the ticker's store-wide pass as it is (with its own test which repositories were modified recently enough to be visited):
+    a blob that arrives long after the last index write and is never referenced is gone after the first pass that runs once its
+    grace period is over - the repository stays in the range of the passes because of that blob"""
+    binp = api_binary(ctx)
+    cases = []
+    n = 1 if ctx.tier == "quick" else 4
+    for i in range(n):
+        for store in ("mem", "dir"):
+            cfg = b"{}"
+            m = image_manifest(desc(MT_CFG, cfg), [], annotations={"late": str(i)})
+            X = b"late-unreferenced-blob-%d" % i
+            gp = lambda secs: dict(kind="gcpass", impl=dict(op="gcpass", secs=secs, partial=True), model="(skip)")
+            steps = [upload_post("a", digest=dg("sha256", cfg), body=cfg), manifest_put("a", "t1", m, ctype=MT_OCI_M),
+                     special("sleep", secs=1.1)]
+            if i % 2 == 0:
+                steps.append(upload_post("a", digest=dg("sha256", X), body=X))
+            else:
+                steps += [upload_post("a"), upload_put("a", "$SID%d$" % len(steps), None, dg("sha256", X), state_token(0), X)]
+            for j in range(9):
+                steps += [gp(0.1), dict(blob_get("a", dg("sha256", X), head=True), passno=j + 1), special("sleep", secs=0.1)]
+            steps += [manifest_get("a", "t1")]
+            for st in steps:
+                st["model"] = "(skip)"
+            cases.append(dict(id=940000 + len(cases), conf=mkconf(store=store, grace_ms=300), steps=steps))
+    iouts = run_api(ctx, binp, cases, name="lateblob")
+    nbad = 0
+    for c in cases:
+        io = iouts[c["id"]]["steps"]
+        seen = [(st["passno"], r.get("status")) for st, r in zip(c["steps"], io) if st.get("passno")]
+        if io[-1].get("status") != 200:
+            ctx.violation("the tagged manifest is gone after the store-wide passes (%s store)" % c["conf"]["store"], dict(case=replayable(c)), "C06:pass-removed-tagged")
+            nbad += 1
+        # passes run every 0.2 s; the grace period (0.3 s) is over from the third pass on: two more passes for scheduling slack
+        if not any(s_ == 404 for p_, s_ in seen if p_ >= 3):
+            nbad += 1
+            ctx.violation("%s store: an unreferenced blob uploaded 1.1 s after the last index write is still there after %d store-wide passes, 1.5 s past its grace period (answers per pass: %s): "
+                          "the pass no longer visits the repository" % (c["conf"]["store"], len(seen), [s_ for _, s_ in seen]), dict(case=replayable(c), answers=seen), "C06:pass-skips-repository-with-late-blob")
+    return len(cases), nbad
+
+
 def run(ctx):
-    apicheck.run(ctx, "C06", make_cases, oracle,
+    res = {}
+
+    def extra(cases, iouts):
+        res["late"] = late_blob_check(ctx)
+    _run(ctx, extra)
+    if res:
+        ctx.coverage["store_wide_pass_late_blob_cases"], ctx.coverage["late_blobs_never_collected"] = res["late"]
+
+
+def _run(ctx, extra):
+    apicheck.run(ctx, "C06", make_cases, oracle, extra=extra,
                  assumptions=["exactness is asserted by the oracle for the policy (untagged on, grace disabled, referrers with subject, dangling kept) only; for the other policy "
                               "combinations the code's result is compared with the model (coq/GC.v) and checked for convergence and for entries without content",
                               "the store-wide pass and the removal of emptied repository directories are checked on the directory store by the oracle (the API-level model has no file system)"])
